@@ -297,7 +297,7 @@ func init() {
 	fw.Register(&fw.Property{
 		ID:     "C08",
 		Run:    runC08,
-		Rule:   "seeded loop shapes: 1-3 mutually recursive functions whose recursive call sits in tail position under 1-4 (quick) / 1-6 (thorough) nested constructs from {fn body last form, fn with several body forms, do, let with list/vector/3 bindings, if then, if else, one-armed if, cond (first/last/middle clause), and, or (several operands and single operand), single-form do, closures with & rest parameters, non-symbol call heads, quasiquote-unquote}, base case in then/else/cond branch or recursion through a closure held in a let; a harness builtin reports runtime.Callers depth at the base case for n = 3, 30, 300, 3000 (must be identical) and at instrumented points of every iteration (must not grow); a subset also runs 10^6 iterations under debug.SetMaxStack(4 MiB) in the worker process; distinct = distinct shape texts",
+		Rule:   "seeded loop shapes: 1-3 mutually recursive functions whose recursive call sits in tail position under 1-4 (quick) / 1-6 (thorough) nested constructs from {fn body last form, fn with several body forms, do, let with list/vector/3 bindings, if then, if else, one-armed if, cond (first/last/middle clause), and, or (several operands and single operand), single-form do, closures with & rest parameters, non-symbol call heads, quasiquote-unquote}, base case in then/else/cond branch or recursion through a closure held in a let; a harness builtin reports runtime.Callers depth at the base case for n = 3, 30, 300, 3000 (must be identical) and at instrumented points of every iteration (must not grow); a subset also runs 10^6 iterations under debug.SetMaxStack(4 MiB) in the worker process; distinct = distinct shape texts; functions may be non-literal at their definition site (built by a user defn macro, by eval of a constructed list, by eval of read-string)",
 		Assume: []string{"try bodies and handlers are not tail positions in the statement", "stepper mode deliberately recurses"},
 		Finish: func(m *fw.Merged) {
 			m.Floor("shapes", 200)
